@@ -20,7 +20,7 @@ ZP = None
 WRITER_FORMAT = {"SRTWriter": "SRTReader", "WebVTTWriter": "WebVTTReader", "DFXPWriter": "DFXPReader",
                  "SinglePositioningDFXPWriter": "DFXPReader", "LegacyDFXPWriter": "DFXPReader",
                  "SAMIWriter": "SAMIReader", "MicroDVDWriter": "MicroDVDReader", "SCCWriter": "SCCReader"}
-MARKER_ALPHABET = list("0123456789\n{}<>/-: \t\r\0\ufeff\u2028") + list("WEBVTT") + list("sami") + list("tt") + list("Scenarist_SCC V1.0")
+MARKER_ALPHABET = list("0123456789\n{}<>/-: \t\r\0\ufeff\u2028\u2029\x0c\x0b\x85\x1c\udc80\u0130\u00df\u0663\u00b2") + list("WEBVTT") + list("sami") + list("tt") + list("Scenarist_SCC V1.0")
 ENCODINGS = ["bom", "crlf", "bom+crlf", "cr", "nul_padding", "leading_newlines", "trailing_space_lines", "upper", "lower",
              "double_bom", "bom_mid"]
 FAULT_KINDS = ["transfer_encoding", "torn_prefix", "torn_byte_prefix", "torn_suffix", "lost_write", "stale_tail", "misdirected_concat",
@@ -186,7 +186,11 @@ BENIGN_WORDS = ("alpha beta gamma delta lorem ipsum dolor sit amet hello world c
                 "quick brown fox over under yes no ok then again music wait what now "
                 "42 3rd 1 it's (laughs) MAN: rock&roll a<b x>y café ♪ naïve 100% [door] ... -- ¿qué? "
                 "\"quoted\" 'single' 😀 a&amp;b &lt; tab\there C:\\dir 5/6 #1 @home = "
-                "… œuvre €5 wait… ½ ™ ñ ¡hola! abcdefghijklmnopqrstuvwxyz ABCDEFGHIJKLMNOPQRSTUVWXYZ012345").split(" ")
+                "… œuvre €5 wait… ½ ™ ñ ¡hola! abcdefghijklmnopqrstuvwxyz ABCDEFGHIJKLMNOPQRSTUVWXYZ012345 "
+                "]]> <![CDATA[ <!-- İstanbul ß ٣ ² 007 - {} {1} | \\N").split(" ")
+# deliberately absent: other formats' markers ("-->", "WEBVTT", "<sami", "</tt>", "{1}{2}", the Scenarist header) as the
+# property says, and characters that str.splitlines() treats as line boundaries (VT, FF, FS-RS, NEL, LS, PS): how written
+# text survives a parser is C03's subject
 
 
 def benign_text(rng):
@@ -204,6 +208,12 @@ def benign_recipe(rng, abs_units=False):
     layouts = [docs.gen_layout(rng, abs_units=abs_units and rng.random() < 0.6) for _ in range(rng.randint(0, 2))]
     if layouts and rng.random() < 0.15:
         layouts.append({"origin": [[rng.choice([0, 100, 120]), "%"], [rng.choice([0, 99, 150]), "%"]]})
+    if rng.random() < 0.1:
+        layouts.append({"origin": [[rng.choice([33.333333, 1e-05, 12.345678, 99.999]), "%"], [rng.choice([66.6666667, 0.001, 50.5]), "%"]],
+                        "extent": [[rng.choice([10.00000001, 33.3333]), "%"], [rng.choice([5.55555, 20]), "%"]],
+                        "padding": [[1.005, "%"], None, [2.5, "%"], [0.125, "%"]]})
+    if rng.random() < 0.04:
+        layouts += [{"origin": [[k, "%"], [k + 1, "%"]]} for k in range(3, 33, 2)]     # many distinct regions
     size = rng.random()
     ncaps = rng.randint(1, 4) if size < 0.95 else (rng.choice([100, 130]) if size < 0.993 else 1005)
     langs = []
@@ -242,7 +252,7 @@ def benign_recipe(rng, abs_units=False):
     rec = {"langs": langs, "styles": "default" if rng.random() < 0.5 else rng.choice([
         {"c1": {"color": "blue", "font-size": "10pt"}}, {"c1": {"italics": True}, "p": {"text-align": "center"}}, {},
         {"c1": {"color": "rgb(255, 255, 0)", "font-family": "Courier New"}}, {"p": {"font-family": "Arial, sans-serif", "color": "#fff"}},
-        {"c1": {"lang": langs[0]["lang"]}, "c 2": {"color": "red"}}])}
+        {"c1": {"lang": langs[0]["lang"]}, "c 2": {"color": "red"}}, {"q\"x": {"color": "red"}, "a'b": {"italics": True}}])}
     if layouts and rng.random() < 0.2:
         rec["layout"] = rng.choice(layouts)
     return rec
@@ -416,12 +426,24 @@ def pipeline_matches(zp, finding, an):
     p = an["pipeline"]
     if p["writer"] != "SCCWriter" or "CaptionReadTimingError" not in an["tag"] or "Unsupported cue duration" not in an["tag"]:
         return False
-    # differential: the same set with only its first cue lengthened by 3 s must write and read back fine;
-    # then the failure is exactly the un-pre-rolled first cue
+    # differential: the same set with only its first cue lengthened by 3 s - or, for cues that start within their
+    # own load time of 0 s and are clamped there, the whole set moved 10 s later as well - must write and read back
+    # fine; then the failure is exactly "a cue at the start of the stream could not be advanced"
     import copy
     q = copy.deepcopy(p)
     first = q["recipe"]["langs"][0]["captions"][0]
     first["end"] = first["end"] + 3000000
+    r = zp.submit(0, {"kind": "pipeline_batch", "pipelines": [q]})["results"][0]
+    if judge_pipeline(q, r) is None:
+        return True
+    starts = [c["start"] for c in p["recipe"]["langs"][0]["captions"]]
+    if min(starts) >= 2000000:
+        return False
+    q = copy.deepcopy(p)
+    for c in q["recipe"]["langs"][0]["captions"]:
+        c["start"] += 10000000
+        c["end"] += 10000000
+    q["recipe"]["langs"][0]["captions"][0]["end"] += 3000000
     r = zp.submit(0, {"kind": "pipeline_batch", "pipelines": [q]})["results"][0]
     return judge_pipeline(q, r) is None
 
